@@ -178,3 +178,7 @@ Proof.
   - unfold run_source, run_source_impl. rewrite F1, F2. cbn [spec_of_front impl_of_front].
     unfold rejecting_phase, rejection_of. cbn. rewrite D1, D2, EA. split; reflexivity.
 Qed.
+
+Lemma parser_builds_canonical_strings : forall v f m st e st',
+  parse_expression f v m st = Done (e, st') -> canon e.
+Proof. intros v f. exact (proj1 (expr_canon v f)). Qed.
